@@ -234,6 +234,45 @@ def run(task):
     return OPS[task['op']](task)
 
 
+REWRAPS = ('f', 'transposed', 'slice', 'netcdf')
+
+
+def rewrap_da(w, how, directory, tag=''):
+    """the SAME labelled weights (values, coords, attrs) as a new DataArray with another memory layout:
+    'f' Fortran-ordered copy, 'transposed' transposed view of a transposed copy, 'slice' isel selection
+    of a padded array (the layouts of make_da), 'netcdf' to_netcdf + open_dataarray().load() in
+    `directory`.  Uses xarray/numpy only, never pyndl."""
+    outs = w.coords['outcomes'].values.tolist()
+    cues = w.coords['cues'].values.tolist()
+    vals = np.array(w.transpose('outcomes', 'cues').values, dtype=np.float64, order='C')
+    attrs = dict(w.attrs)
+    if how == 'f':
+        return xr.DataArray(np.asfortranarray(vals), [('outcomes', outs), ('cues', cues)], attrs=attrs)
+    if how == 'transposed':
+        return xr.DataArray(np.ascontiguousarray(vals.T), [('cues', cues), ('outcomes', outs)], attrs=attrs).T
+    if how == 'slice':
+        big = np.full((len(outs) + 2, len(cues) + 3), 7.25)
+        big[1:-1, 2:-1] = vals
+        da = xr.DataArray(big, [('outcomes', ['PAD0'] + outs + ['PAD1']), ('cues', ['P0', 'P1'] + cues + ['P2'])],
+                          attrs=attrs)
+        return da.isel(outcomes=slice(1, len(outs) + 1), cues=slice(2, len(cues) + 2))
+    if how == 'netcdf':
+        path = os.path.join(directory, 'rewrap_%s.nc' % tag)
+        w.to_netcdf(path)
+        with xr.open_dataarray(path) as fh:
+            w2 = fh.load()
+        os.remove(path)
+        return w2
+    raise RuntimeError('bad rewrap')
+
+
+def _denoted(w):
+    """what a weights DataArray denotes, independent of its memory layout"""
+    w = w.transpose('outcomes', 'cues')
+    return (w.coords['outcomes'].values.tolist(), w.coords['cues'].values.tolist(),
+            np.ascontiguousarray(w.values, dtype=np.float64).tobytes(), w.values.dtype == np.float64, dict(w.attrs))
+
+
 def op_chain(t):
     """
     A chain of learner calls through the `weights` argument inside ONE process
@@ -242,6 +281,13 @@ def op_chain(t):
     Every piece reads its events from its own file.  Returns the final weights,
     and for every call whether the object handed in as `weights` (values,
     coords, attrs) is unchanged afterwards — also checked again at the very end.
+    Optional per piece: `inplace` (dict_ndl(inplace=True): when the object handed in is a dict, the
+    call is asked to learn IN it — reported as `inplace_same_object` (w2 is w); that object is not held
+    to the non-mutation clause for this call, but every object handed in earlier still is, and so is
+    this one in every later call); `rewrap` (the DataArray about to be handed in is re-wrapped by
+    rewrap_da first — same denoted weights, other memory layout; `rewrap_kept` says whether values,
+    coords and attrs survived the re-wrapping itself).  Optional per task: `policy` may make the model
+    predict ValueError; the error class is reported like any other.
     """
     cd = CallDir()
     try:
@@ -249,13 +295,21 @@ def op_chain(t):
         snaps = []          # (object, snapshot) of everything ever handed in
         flags = []
         n_events = []
+        same_object, rewrapped, rewrap_kept = [], [], []
         for k, pc in enumerate(t['pieces']):
             path = os.path.join(cd.inp, 'events_%d.tab.gz' % k)
             write_event_file(path, [(list(c), list(o)) for c, o in pc['events']])
             if w is not None and pc['learner'] == 'ndl' and not isinstance(w, xr.DataArray):
                 w = ndl.data_array(w)
+            if pc.get('rewrap') and isinstance(w, xr.DataArray):
+                w_r = rewrap_da(w, pc['rewrap'], cd.inp, str(k))
+                rewrap_kept.append(_denoted(w_r) == _denoted(w) and tuple(w_r.dims) == ('outcomes', 'cues'))
+                rewrapped.append([k, pc['rewrap']])
+                w = w_r
             snap = snapshot(w)
-            if w is not None:
+            inplace = bool(pc.get('inplace', False)) and pc['learner'] == 'dict_ndl'
+            in_dict = inplace and w is not None and not isinstance(w, xr.DataArray)
+            if w is not None and not inplace:
                 snaps.append((w, snap))
             # the events argument in the form the piece asks for (file forms read events_<k>.tab.gz; the
             # in-memory forms carry what that file reads back as)
@@ -268,7 +322,8 @@ def op_chain(t):
                 if pc['learner'] == 'dict_ndl':
                     w2 = ndl.dict_ndl(path_or_events, fl(t['alpha']), (fl(t['beta1']), fl(t['beta2'])), fl(t['lambda']),
                                       weights=w, remove_duplicates=POLICY[t['policy']],
-                                      make_data_array=bool(pc.get('make_data_array', False)))
+                                      make_data_array=bool(pc.get('make_data_array', False)),
+                                      **({'inplace': True} if inplace else {}))
                 else:
                     w2 = ndl.ndl(path_or_events, fl(t['alpha']), (fl(t['beta1']), fl(t['beta2'])), fl(t['lambda']),
                                  method=pc['method'], weights=w, n_jobs=int(pc.get('n_jobs', 2)),
@@ -279,9 +334,14 @@ def op_chain(t):
                 r = err(e)
                 r['failed_piece'] = k
                 return r
-            flags.append(snapshot(w) == snap)
+            flags.append(True if inplace else snapshot(w) == snap)
+            if in_dict:
+                same_object.append([k, w2 is w])
             w = w2
         res = da_to_result(w) if isinstance(w, xr.DataArray) else dict_to_result(w)
+        res['inplace_same_object'] = same_object
+        res['rewrapped'] = rewrapped
+        res['rewrap_kept'] = rewrap_kept
         res['is_data_array'] = isinstance(w, xr.DataArray)
         res['attrs'] = {k: str(v) for k, v in w.attrs.items()}
         res['inputs_unmodified'] = flags
